@@ -451,7 +451,32 @@ class Parser(object):
                 return ('const', ln, name, ty, init)
             if kw == 'fn' or (kw in ('const', 'unsafe', 'pub') and self._fn_ahead()):
                 return ('fn', ln, self.parse_fn_item())
-            if kw in ('struct', 'enum', 'impl', 'trait', 'use', 'static', 'mod', 'type'):
+            if kw == 'use':
+                while not self.at_p(';'):
+                    if self.at_end():
+                        self.err('unterminated use')
+                    self.i += 1
+                self.i += 1
+                return ('use', ln)
+            if kw in ('struct', 'impl'):
+                # nested item declaration: skipped here (see rslex.nested_items)
+                depth = 0
+                while True:
+                    if self.at_end():
+                        self.err('unterminated nested item')
+                    t2 = self.peek()
+                    self.i += 1
+                    if t2[0] == 'p':
+                        if t2[1] in ('(', '[', '{'):
+                            depth += 1
+                        elif t2[1] in (')', ']', '}'):
+                            depth -= 1
+                            if depth == 0 and t2[1] == '}':
+                                break
+                        elif t2[1] == ';' and depth == 0:
+                            break
+                return ('nested', ln, kw)
+            if kw in ('enum', 'trait', 'static', 'mod', 'type'):
                 self.err('nested %s item is outside the supported subset' % kw)
         e = self.parse_expr()
         semi = self.eat_p(';')
